@@ -551,6 +551,17 @@ def cfg_corpus(tier: str, seed: int):
         # random subsets with parameters
         for _ in range(15 if tier == "quick" else 150):
             add(d, random_config(d, rng), "random", decorate_p=0.6)
+        # adversarial custom names: every item takes the default name of another one
+        swapped = {"MIN": "MAX", "MAX": "MIN", "next": "next_back", "next_back": "next", "as_str": "into", "into": "as_str",
+                   "iter": "names", "names": "iter", "try_from": "from_str", "from_str": "try_from", "range": "between"}
+        for k in range(2 if tier == "quick" else 6):
+            t = tuples[(k * 5 + di) % len(tuples)]
+            add(d, legalize(cfg_all(t, names=swapped), d), "swapped_names")
+            t2 = dict(t)
+            cfg = legalize(cfg_all(t2, names=swapped, without=("Into", "TryFrom", "FromStr")), d)
+            cfg.feats["iter"] = dict(cfg.feats["iter"], struct_name=d.name + "Names")
+            cfg.feats["names"] = dict(cfg.feats["names"], struct_name=d.name + "Iter")
+            add(d, cfg, "swapped_names")
         # split versus joined: the same configuration in one attribute and spread over several
         for k in range(4 if tier == "quick" else 16):
             t = tuples[rng.randrange(len(tuples))]
@@ -664,6 +675,19 @@ def dom_corpus(tier: str, seed: int):
                ("Iter", None, None), ("EIter", None, None), ("Self_", None, None), ("core", None, None), ("str", "50", None),
                ("Error", None, None), ("Item", None, None), ("Output", None, None), ("Target", None, None), ("Owned", None, None)]
         add(make_decl(r, odd, shape="dom_odd_idents"), {"feat": ["odd_idents", "implicit_after_explicit"]}, modes_i=ri)
+        # 4c. enums named like prelude / core items, repr given through cfg_attr and before the derive
+        for ename in (["Option", "Copy"] if tier == "quick" else ["Option", "Result", "Iterator", "Copy", "Some", "e", "Ordering", "String"]):
+            dd = make_decl(r, [("A", None, None), ("B", "5", "b"), ("C", None, None), ("D", "2", None)], shape="dom_enum_named_" + ename)
+            dd.name = ename
+            add(dd, {"feat": ["enum_name", "implicit_after_explicit"]}, modes_i=ri)
+        dd = make_decl(r, [("A", "3", None), ("B", None, None), ("C", "1", None)], shape="dom_repr_cfg_attr",
+                       enum_attrs=["#[cfg_attr(all(), repr(%s))]" % r, "#[cfg_attr(any(), repr(u8))]"])
+        dd.repr_attr = False
+        add(dd, {"feat": ["foreign_attrs", "implicit_after_explicit"]}, modes_i=ri)
+        dd = make_decl(r, [("A", "3", None), ("B", None, None), ("C", "1", None)], shape="dom_repr_before_derive",
+                       enum_attrs=["#[repr(%s)]" % r])
+        dd.repr_attr = False
+        add(dd, {"feat": ["foreign_attrs", "implicit_after_explicit"]}, modes_i=ri)
         # 5. sizes
         if bits > 8:
             for n in (255, 256, 257):
